@@ -214,60 +214,50 @@ def run(chk, prog):
         chk.decide(RD, chk.key(RD, 'remove-never-panics'), not bad, 'no unguarded panic site',
                    'remove_variable_observer has unguarded panic site(s) %s' % bad, bad[0][1] if bad else None)
 
-    # ---- the batch is opened once per continue, not once per slice
-    RF = 'C11.batch-closed-whenever-opened'
-    chk.rule(RF, 'complete_variable_observation is the only place that leaves batch mode (VariablesState keeps recording '
-             'host assignments silently until then). What decides whether it runs in continue_internal is nothing but '
-             '(a) the refusal at entry, (b) the test that the line is complete and (c) the outermost-continue test on '
-             'recursive_continue_count that also guards start_variable_observation: any further condition leaves batch '
-             'mode switched on after a completed continue, and the next set_variable from the host notifies nobody.')
-    if ci is not None:
-        from analysis.guards import resolve_cond as _rc
-        gci = cfg(ci)
-        comp = [bb for bb, t in ci.calls() if callee_short(t) == 'VariablesState::complete_variable_observation']
-        if chk.anchor(RF, 'complete_variable_observation in continue_internal', comp):
-            for i, cb in enumerate(comp):
-                seen_, work_, ctrl = set(), [cb], []
-                while work_:
-                    c_ = work_.pop()
-                    for b in gci.controllers(c_):
-                        if b not in seen_:
-                            seen_.add(b)
-                            ctrl.append(b)
-                            work_.append(b)
-                foreign = []
-                for b in sorted(ctrl):
-                    tt = ci.blocks[b]['term']
-                    if not tt or tt['k'] != 'switch':
-                        continue
-                    c_ = _rc(prog, ci, tt['d'], tr)
-                    at = tr.prov(ci, tt['d']) if tt['d'].get('k') in ('copy', 'move') else set()
-                    ok_ = False
-                    if c_ is not None:
-                        d_ = c_.desc
-                        ok_ = (d_[0] == 'field' and d_[1] == 'Story::async_continue_active') or \
-                            (d_[0] == 'call' and d_[1] == 'Story::can_continue') or \
-                            (d_[0] in ('cmp', 'cmp2') and any('field:Story::recursive_continue_count' in x
-                                                                for x in d_[2:] if isinstance(x, frozenset))) or \
-                            (d_[0] == 'is_ok' and any('Story::continue_single_step' in a for a in d_[1]))
-                    if not ok_ and at and 'field:Story::recursive_continue_count' in at:
-                        # `match self.recursive_continue_count { 1 => .., _ => .. }` switches on the field itself
-                        ok_ = all(a in ('arg:1', 'field:Story::recursive_continue_count') or a.startswith(('via:', 'op:'))
-                                  for a in at)
-                    if not ok_:
-                        ok_ = bool(at) and all(a.startswith('const:') or 'Story::continue_single_step' in a
-                                               or 'Story::can_continue' in a or a.startswith(('field:Result', 'field:Option',
-                                                                                                'op:', 'via:'))
-                                               for a in at)
-                    if not ok_:
-                        foreign.append((ci.loc(b), c_.desc if c_ is not None else sorted(at)[:3]))
-                chk.decide(RF, chk.key(RF, 'site', '#%d' % i), not foreign,
-                           'controlled only by the refusal, the completion test and the outermost-continue test '
-                           '(%d controlling branches)' % len(ctrl),
-                           'whether complete_variable_observation runs also depends on %s: when that condition is false a '
-                           'completed continue leaves VariablesState in batch mode, and a later set_variable from the host '
-                           'is recorded silently instead of notifying its observers' % ((foreign[0][1] if foreign else ''),),
-                           foreign[0][0] if foreign else ci.loc(cb))
+    # ---- a removal / registration visits every list it means to
+    RG = 'C11.no-effects-under-short-circuit'
+    chk.rule(RG, 'In observe_variable, remove_variable_observer and notify_variable_changed no closure that changes a '
+             'collection (retain / remove / push / insert / clear ...) or calls an observer is handed to a '
+             'short-circuiting iterator adaptor (any, all, find, find_map, position, take_while, skip_while, '
+             'try_for_each, try_fold): the adaptor stops at the first hit, so "remove from all variables" would stop at '
+             'the first variable the observer was registered for, and which one that is depends on hash order.')
+    SHORT = ('any', 'all', 'find', 'find_map', 'position', 'rposition', 'take_while', 'skip_while', 'map_while',
+             'try_for_each', 'try_fold')
+    MUT = ('retain', 'retain_mut', 'remove', 'swap_remove', 'push', 'insert', 'clear', 'drain', 'truncate', 'pop',
+           'extend', 'append', 'dedup')
+    n_ad = 0
+    for nm_ in ('Story::observe_variable', 'Story::remove_variable_observer', 'Story::notify_variable_changed'):
+        f_ = prog.fn(nm_)
+        if not chk.anchor(RG, nm_, f_):
+            continue
+        for g_ in prog.with_closures(f_):
+            for bb, t in g_.calls():
+                ad = callee_short(t).rsplit('::', 1)[-1]
+                cls = [prog.fns[c] for c in (t['f'].get('closures') or []) if c in prog.fns]
+                # a closure stored in a local first (`let remove_from = |v| ..; it.any(remove_from)`)
+                for a in t['args'][1:]:
+                    if a.get('k') in ('copy', 'move'):
+                        ty = g_.local_ty(a['pl']['l']) if 'p' not in a['pl'] else ''
+                        for c in prog.closures_of(f_):
+                            if c.p in ty and c not in cls:
+                                cls.append(c)
+                if not cls:
+                    continue
+                n_ad += 1
+                if ad not in SHORT:
+                    continue
+                for c in cls:
+                    eff_calls = [callee_short(t2) for c2 in [c] + prog.closures_of(c) for _, t2 in c2.calls()
+                                 if callee_short(t2).rsplit('::', 1)[-1] in MUT or is_dyn_call(t2)]
+                    chk.decide(RG, chk.key(RG, nm_, ad, c.short.rsplit('::', 1)[-1]), not eff_calls,
+                               'the closure handed to %s() only reads' % ad,
+                               '%s hands a closure that changes state (%s) to the short-circuiting adaptor %s(): it stops '
+                               'at the first element for which the closure answers, the remaining lists are never '
+                               'visited' % (nm_, ', '.join(sorted(set(eff_calls))[:3]), ad), g_.loc(bb))
+    chk.floor(RG, 'iterator adaptors with closures in the observer functions', n_ad, 2)
+
+    # ---- the batch is closed whenever a line completes
+    closing_action_controllers(chk, prog, tr, 'C11.batch-closed-whenever-opened')
 
     RE = 'C11.batch-opened-once-per-continue'
     chk.rule(RE, 'In continue_internal start_variable_observation (which empties the set of changed names) runs only when '
@@ -285,3 +275,101 @@ def run(chk, prog):
                            'start_variable_observation is reachable while a time-limited continue is being resumed (entry '
                            'valuations %s): the names changed in earlier slices of the same continue are forgotten' % vs,
                            ci.loc(bb))
+
+
+def closing_action_controllers(chk, prog, tr, RF):
+    """Shared by C11 and C08: what decides whether complete_variable_observation runs."""
+    from analysis.guards import resolve_cond as _rc
+    from analysis.defuse import du as _du
+    from analysis.wbf import err_exits as _ee
+    chk.rule(RF, 'complete_variable_observation is the only place that leaves batch mode (VariablesState keeps recording '
+             'host assignments silently until then) and the place the changes of a line are collected for the observers. '
+             'What decides whether it runs in continue_internal is nothing but (a) the refusal at entry (a test one side of '
+             'which only leads to an error return), (b) the test that the line is complete and (c) the outermost-continue '
+             'test on recursive_continue_count. In particular it does not depend - directly or through a flag set earlier '
+             'in the same call - on whether THIS call started the line: a time-limited continue finishes a line in a later '
+             'call than the one that started it.')
+    ci = prog.fn('Story::continue_internal')
+    if not chk.anchor(RF, 'Story::continue_internal', ci):
+        return
+    gci = cfg(ci)
+    d = _du(ci)
+    errs = {b for b, d_, s_ in _ee(prog, ci)}
+    # (`helper()?` on a spliced helper is not an error exit of its own for write-before-fail, but the path dies there)
+    errs |= {bb for bb, t in ci.calls() if callee_short(t).endswith('::from_residual') and t['dest'].get('l') == 0
+             and 'p' not in t['dest']}
+    # return blocks reached only through an error exit: control dependence is computed over the successful runs
+    err_returns = set(errs)        # the blocks that produce an Err result are dead ends for this purpose
+    comp = [bb for bb, t in ci.calls() if callee_short(t) == 'VariablesState::complete_variable_observation']
+    if not chk.anchor(RF, 'complete_variable_observation in continue_internal', comp):
+        return
+
+    def refusal_type(b):
+        """one side of the branch reaches error returns only"""
+        tt = ci.blocks[b]['term']
+        for x in [tb for _, tb in tt['ts']] + [tt['else']]:
+            r = gci.reachable([x], avoid=[b])
+            rets = [y for y in r if y in gci.returns]
+            if rets and all(y in errs or any(e in gci.reachable([x], avoid=[b]) and gci.dominates(e, y) for e in errs)
+                            for y in rets):
+                return True
+        return False
+    for i, cb in enumerate(comp):
+        seen_, work_, ctrl = set(), [cb], []
+        via_flag = {}
+        while work_:
+            c_ = work_.pop()
+            for b in gci.controllers(c_, exclude_exits=err_returns):
+                if b not in seen_:
+                    seen_.add(b)
+                    ctrl.append(b)
+                    work_.append(b)
+                    # a flag tested here: whatever decided its `true` assignments decides this branch too
+                    tt = ci.blocks[b]['term']
+                    if tt and tt['k'] == 'switch' and tt['d'].get('k') in ('copy', 'move') and 'p' not in tt['d']['pl']:
+                        lin, w2 = set(), [tt['d']['pl']['l']]
+                        while w2:
+                            y = w2.pop()
+                            if y in lin:
+                                continue
+                            lin.add(y)
+                            for df in d.defs.get(y, []):
+                                if df['kind'] == 'assign' and df['rv']['k'] == 'use':
+                                    o = df['rv']['op']
+                                    if o.get('k') in ('copy', 'move') and 'p' not in o['pl']:
+                                        w2.append(o['pl']['l'])
+                                    elif o.get('k') == 'const' and o.get('bool') is True and len(d.defs.get(y, [])) > 1:
+                                        work_.append(df['bb'])
+                                        via_flag[df['bb']] = b
+        foreign = []
+        for b in sorted(ctrl):
+            tt = ci.blocks[b]['term']
+            if not tt or tt['k'] != 'switch':
+                continue
+            c_ = _rc(prog, ci, tt['d'], tr)
+            at = tr.prov(ci, tt['d']) if tt['d'].get('k') in ('copy', 'move') else set()
+            ok_ = False
+            if c_ is not None:
+                d_ = c_.desc
+                ok_ = (d_[0] == 'call' and d_[1] == 'Story::can_continue') or \
+                    (d_[0] in ('cmp', 'cmp2') and any('field:Story::recursive_continue_count' in x
+                                                        for x in d_[2:] if isinstance(x, frozenset))) or \
+                    (d_[0] == 'is_ok' and any('Story::continue_single_step' in a for a in d_[1]))
+            if not ok_ and at and 'field:Story::recursive_continue_count' in at:
+                # `match self.recursive_continue_count { 1 => .., _ => .. }` switches on the field itself
+                ok_ = all(a in ('arg:1', 'field:Story::recursive_continue_count') or a.startswith(('via:', 'op:'))
+                          for a in at)
+            if not ok_:
+                ok_ = bool(at) and all(a.startswith('const:') or 'Story::continue_single_step' in a
+                                       or 'Story::can_continue' in a or a.startswith(('field:Result', 'field:Option',
+                                                                                        'op:', 'via:'))
+                                       for a in at)
+            if not ok_:
+                foreign.append((ci.loc(b), c_.desc if c_ is not None else sorted(at)[:3]))
+        chk.decide(RF, chk.key(RF, 'site', '#%d' % i), not foreign,
+                   'controlled only by the refusal, the completion test and the outermost-continue test '
+                   '(%d controlling branches)' % len(ctrl),
+                   'whether complete_variable_observation runs also depends on %s: when that condition is false a '
+                   'completed line leaves VariablesState in batch mode - its observers are told nothing, and a later '
+                   'set_variable from the host is recorded silently' % ((foreign[0][1] if foreign else ''),),
+                   foreign[0][0] if foreign else ci.loc(cb))
